@@ -135,6 +135,21 @@ CHECKS = {
         technique="TLA+ reference renderer + parser checked by TLC; TLC-rendered messages replayed; random messages judged by TLC",
         design="4/C16",
     ),
+    "C04": dict(
+        specs=["B64.tla", "CodecR.tla", "TransformR.tla", "TransformScn.tla", "Transform.tla", "TransformIO.tla"],
+        text="Transform.tla is the data-transform interpreter as a state machine (program counter forwards while encoding, "
+        "backwards while decoding; base64/base64url/NetBIOS/mask/append/prepend, four terminations, static decorations, BUILD "
+        "blocks). TLC explores every single-block program with up to two encoders (arguments empty / plain / syntax-laden), "
+        "every termination, multi-block programs with statics, all payloads over {0,65,255} up to the bound and an empty or "
+        "non-empty initial URI, checking invertibility, placement of statics and agreement with the recursive reference. "
+        "Binding in four ways: library transform == spec Encode under the spec-chosen nonce; library recover of the "
+        "spec-encoded message; spec Decode of the library-encoded message; library round trip - the last two on random "
+        "programs with binary arguments and payloads to 4 KB, judged by TLC.",
+        note="Trusted: TLC, B64/CodecR/TransformR. base64url is taken with '=' padding; recover() gets the base URI. Nonces are "
+        "injected by patching random.getrandbits inside the harness process only.",
+        technique="TLA+ interpreter state machine model-checked by TLC; TLC-computed encodings replayed both ways; library encodings decoded by TLC",
+        design="4/C04",
+    ),
 }
 
 NOT_YET = "check not built yet in this round; planned in DESIGN.md section 4"
